@@ -221,6 +221,45 @@ def g_many(npings, where, control_frame=False):
     cover("many")
 
 
+def g_after_close(n, where, control_frame=False):
+    """a multi-step history: the caller has sent its own close frame with send_close() and keeps receiving until the peer's close
+    arrives; a ping that arrives in between (before a message / between its two fragments) is a ping received through the
+    message-level receive calls like any other: exactly one pong, same payload, before anything else is read"""
+    quiet_logging()
+    Proto, Payload, Closed = _excs()
+    p = sx.sym_bytes("p", n)
+    m = sx.sym_bytes("m", 2)
+    k0, k1 = sx.sym_bytes("k0", 4), sx.sym_bytes("k1", 4)
+    if where == "before":
+        stream = server_frame(1, 9, p) + server_frame(1, 2, m)
+    else:
+        stream = server_frame(0, 2, m[:1]) + server_frame(1, 9, p) + server_frame(1, 0, m[1:])
+    sock = FakeSock([stream + server_frame(1, 8, b"\x03\xe8"), "eof"])
+    ws = new_ws(sock, get_mask_key=KeySource([k0, k1, bytes(4)]))
+    try:
+        ws.send_close()
+        before = len(sock.wire())
+        got = None
+        for _ in range(3):
+            op, data = ws.recv_data(control_frame)
+            if op == 2:
+                got = data
+                break
+    except (sx.Control, sx.ConcreteFailure, sx.ReplayMismatch):
+        raise
+    except Exception as e:
+        sx.require(False, "receive after send_close() raised %s" % type(e).__name__, n=n, where=where)
+        return
+    sx.require(got is not None and got == m, "the message around / behind the ping is delivered", n=n, where=where)
+    wire = sock.wire()[before:]
+    exp = ref_encode(1, 10, p, k1)
+    sx.require(len(wire) == len(exp), "a ping received after the caller's own send_close() is answered with exactly one pong", n=n, where=where,
+               got=len(wire), exp=len(exp))
+    if len(wire) == len(exp):
+        sx.require(wire == exp, "that pong carries the ping's payload", n=n, where=where)
+    cover("after-close")
+
+
 def g_threads(kind):
     """the automatic pong stays whole on the wire next to a concurrent sender (C12's interleaving queries, shared)"""
     from .c12 import w_order_mixed, w_order_send
@@ -270,6 +309,9 @@ def obligations(tier):
                    bounds="a sender thread (frame in 2 pieces) against another sender, and against a receiver thread answering a ping; ALL interleavings "
                           "of the extracted lock/write events (C12's queries)", must_cover=["order-send", "order-mixed"], solver_timeout_ms=120000,
                    kernel=["WebSocket.send_frame (send lock)", "recv_data_frame (ping branch)", "WebSocket.pong"]),
+        Obligation("G-after-close", g_after_close, [dict(n=n, where=w, control_frame=cf) for n in (0, 2, 125) for w in ("before", "inside") for cf in (False, True)],
+                   bounds="send_close() by the caller, then a ping (0 / 2 / 125 symbolic bytes) before a message or between its two fragments, then the "
+                          "peer's close frame", must_cover=["after-close"], kernel=["WebSocket.send_close", "WebSocket.recv_data_frame (ping branch)", "WebSocket.pong"]),
         Obligation("G-many", g_many, [dict(npings=n, where=w, control_frame=cf) for n in ((50, 400, 1200, 3000) if thorough else (50, 1200)) for w in ("before", "inside")
                                       for cf in (False, True)],
                    bounds="50 / 1200 (thorough: 400, 3000 as well) consecutive pings before a message or between its two fragments, consumed by one "
